@@ -55,6 +55,8 @@ func (interp *Interpreter) SingleStepStateTransition(pc ProgramCounter) (ExitRea
 		return exitReason, 0
 	case HOST_CALL: // host-call: newPC = pc
 		return exitReason, newPC
+	case PAGE_FAULT: // the faulting instruction is not completed: the counter stays on it
+		return exitReason, pc
 	}
 
 	if pc != newPC {
